@@ -901,7 +901,10 @@ def run_variant(prog, variant, timeout_s=120, queries=("sound", "honest"), first
             anyfail = F.OR(fails)
             sp = program_spec(F, prog, ins)
             rel = sp["honest"](outs)
+            last_sound["rel"] = sp["sound"](outs)
             return F, ins, outs, val, anyfail, rel
+
+        last_sound = {}
 
         def input_domains(limit=8):
             """for every program input, the set of values the relation allows (if at most `limit`)"""
@@ -1016,6 +1019,24 @@ def run_variant(prog, variant, timeout_s=120, queries=("sound", "honest"), first
             d["cex"] = dict(inputs=[F.value(m, x) for x in ins], outputs=[F.value(m, x) for x in outs])
         elif r == "unknown":
             sr = full_split(fwdq)
+            if sr:
+                d.update(result=sr[0], time=round(dt + sr[1], 4), split=sr[3])
+                if sr[2]:
+                    d["cex"] = sr[2]
+        # the converse of HONEST ("solving succeeds EXACTLY when ..."): if the honest solver succeeds, the
+        # documented relation holds (implied by SOUND, which lets the hints lie; decided here with the honest hints)
+        def fsq(F, ins, outs, val, anyfail, rel):
+            F.require(-anyfail)
+            F.require(-last_sound["rel"])
+        t = buildh({})
+        F, ins, outs = t[0], t[1], t[2]
+        fsq(*t)
+        r, m, dt, _ = solve(F, first_timeout)
+        d = rec("forward-sound", r, "unsat", dt, F)
+        if r == "sat":
+            d["cex"] = dict(inputs=[F.value(m, x) for x in ins], outputs=[F.value(m, x) for x in outs])
+        elif r == "unknown":
+            sr = full_split(fsq)
             if sr:
                 d.update(result=sr[0], time=round(dt + sr[1], 4), split=sr[3])
                 if sr[2]:
